@@ -266,6 +266,11 @@ Loop:
 			}
 		}
 	}
+	if err := ctx.Err(); err != nil {
+		// entries may have been closed because the workers saw
+		// the cancellation and dropped rows; do not publish a partial product.
+		return err
+	}
 	sort.Sort(EntriesByIndex(sortedEntries))
 	v.Dim = dim
 	v.Entries = sortedEntries
